@@ -128,7 +128,8 @@ def write_once_latch(prog: Program, f, attr: str) -> bool:
                 found = True
                 unset = any(val and a == ("cmp", "is", ("attr", C.SELF, attr), ("const", None)) for a, val in T.derive_atoms(p.guards()))
                 v = e[3]
-                fac = v[0] == "call" and T.refname(v[1]) in memo and T.refname(v[1]).rsplit(".", 1)[-1] in ("marshaller", "unmarshaller")
+                # (the routine factory of the api modules; that it is memoised is not what makes the latch a function of self.t)
+                fac = v[0] == "call" and (T.refname(v[1]) or "") in ("typelib.marshals.api.marshaller", "typelib.unmarshals.api.unmarshaller")
                 pure = fac and all(x == C.SELF or x == ("attr", C.SELF, "t") or x[0] in ("ref", "call", "const") for a in v[2] for x in T.walk(a) if x[0] in ("param", "attr", "name", "local", "unknown"))
                 if not (unset and fac and pure):
                     return False
@@ -139,6 +140,8 @@ def r12_1(prog: Program, rep: Report, ct):
     n = 0
     for q in sorted(ct):
         f = prog.functions[q]
+        if f.name in ("__init__", "__post_init__", "__new__") and f.cls is not None:
+            continue  # (a constructor initialises the object it is building: that is no state left by an earlier call)
         ws = E.state_writes(prog, f)
         if not ws:
             continue
@@ -747,12 +750,12 @@ def run(prog: Program, rep: Report, tier: str):
     from . import c11 as _c11
 
     _c11.shared_reference_memo(prog, rep, "R12.11")
-    rep.rule("R12.12", "memos keyed by annotations never forget", floor=50)
+    rep.rule("R12.12", "memos keyed by annotations never forget", floor=30)
     memo_unbounded(prog, rep, "R12.12")
     rep.rule("R12.1", "no call-time state write that is read back (frozen latches excepted)", floor=3)
-    rep.rule("R12.2", "memoised mutable results do not escape through routine/API returns; no memoised one-shot objects", floor=40)
-    rep.rule("R12.3", "key granularity of memoised functions (triaged candidates)", floor=5)
-    rep.rule("R12.4", "memoised functions are free of ambient reads", floor=25)
+    rep.rule("R12.2", "memoised mutable results do not escape through routine/API returns; no memoised one-shot objects", floor=30)
+    rep.rule("R12.3", "key granularity of memoised functions (triaged candidates)", floor=1)
+    rep.rule("R12.4", "memoised functions are free of ambient reads", floor=15)
     rep.rule("R12.5", "memoised decoders receive hashable carriers (shared with R14.3)", floor=1)
     rep.rule("R12.6", "no mutable defaults; no module-level container mutated from a function (slotted guard excepted)", floor=1)
     rep.rule("R12.7", "no unmarshal/serdes path mutates its input", floor=25)
